@@ -777,6 +777,33 @@ func runC10(c *Ctx) {
 		c.verdict(len(bad) == 0, c.nm(fn)+" | returns and queues the request it allocated", c.P.Pos(fn.Pos()), "one fresh GetUtxoRequest with a result channel of capacity 1: queued, and the only non-nil result", join(bad), c.ats(rets)...)
 	})
 
+	c.rule("C10.V5", "what the start block holds is kept for every new request, duplicates included: the reporter's record of initial outputs (initialTxns, what NotifyUnspentAndUnfound answers unspent requests with) is written in a loop over the new requests (or over what was found for them), and every pass of that loop reaches the write - an entry skipped because the outpoint already has more than one request is skipped for first-time duplicates too (they were appended to requests just before), and all of them are told the output does not exist", func() {
+		initF := c.field("neutrino", "batchSpendReporter", "initialTxns")
+		n := 0
+		for _, fn := range c.P.Funcs {
+			if fn.Parent() != nil || !strings.HasPrefix(c.nm(fn), "(*neutrino.batchSpendReporter).") {
+				continue
+			}
+			for _, mu := range find(fn, mapUpdate(loadsField(initF))) {
+				h := ir.LoopHeaderOf(mu.Block())
+				if h == nil {
+					continue
+				}
+				n++
+				in := ir.LoopBlocks(h)
+				var starts []start
+				for i, sc := range h.Succs {
+					if in[sc] {
+						starts = append(starts, atEdge(c, ir.Edge{From: h, Succ: i}, "next new request"))
+					}
+				}
+				mu := mu
+				c.mustFollowIter(fn, "each new request", starts, func(x ssa.Instruction) bool { return x == mu }, "b.initialTxns[outpoint] = ..", nil, 1)
+			}
+		}
+		c.verdict(n >= 1, "neutrino.batchSpendReporter | initial outputs are recorded in a loop over the new requests", "", fmt.Sprintf("%d recording loop(s)", n), "no loop records the initial outputs of new requests any more")
+	})
+
 	c.rule("C10.L1", "UtxoScanner.pq and nextBatch are accessed only under s.mu (= s.cv.L); GetUtxoRequest.result only under r.mu", func() {
 		mu := c.field("neutrino", "UtxoScanner", "mu")
 		exempt := map[string]string{"neutrino.NewUtxoScanner": "constructor"}
